@@ -311,12 +311,52 @@ def rule_r7(ctx):
         raise AnalysisBroken("only %d multi-cursor transfer blocks found" % n_blocks)
 
 
+
+def rule_r9(ctx):
+    r = ctx.rule("C16.R9", "T1", "control frames do not touch reassembly: in ws_read_frame_cb no store to ws->inmsg is reachable from "
+                 "the PING / PONG / CLOSE cases of the opcode switch (a control frame may arrive between the fragments of a "
+                 "message and must leave 'inside a fragmented message' as it is)", floor=3)
+    f = ctx.prog.need("ws_read_frame_cb", WS)
+    stores = G.positions(G.stores(f, "inmsg"))
+    if not stores:
+        raise AnalysisBroken("ws_read_frame_cb: no store to inmsg")
+    sw = [b for b in f.blocks.values() if b.term and b.term.get("kind") == "SwitchStmt"]
+    if not sw:
+        raise AnalysisBroken("ws_read_frame_cb: opcode switch not found")
+    CONTROL = {8: "WS_CLOSE", 9: "WS_PING", 10: "WS_PONG"}
+    seen = 0
+    for b in sw:
+        for k, t in enumerate(b.succs):
+            if t is None:
+                continue
+            lb = f.blocks[t].label
+            if not lb or lb.get("kind") != "case":
+                continue
+            cv = lb.get("cv")
+            if cv is None and lb.get("v"):
+                cv = const_of(lb["v"])
+            if cv not in CONTROL:
+                continue
+            seen += 1
+            hit = G.reaches(f, (t, 0), stores)
+            if hit:
+                ctx.fail(r, f, "inmsg changed by a %s frame" % CONTROL[cv], f.line_of(*hit),
+                         "the %s case reaches the store to ws->inmsg at line %s: a control frame between two fragments ends (or "
+                         "starts) the message early, the partial message is delivered and the next continuation frame fails the "
+                         "connection" % (CONTROL[cv], f.line_of(*hit)))
+            else:
+                r.ob(f, "%s leaves inmsg alone" % CONTROL[cv])
+    if seen < 3:
+        raise AnalysisBroken("ws_read_frame_cb: control-frame cases not found (%d)" % seen)
+
+
 def run(ctx):
     ctx.guard(rule_r1)
     ctx.guard(rule_r2)
     ctx.guard(rule_r3)
     ctx.guard(rule_r4)
     ctx.guard(rule_r7)
+    ctx.guard(rule_r9)
     ctx.guard(c11.rule_ws)
     for rr in ctx.rules:
         if rr.id == "C11.R7":
